@@ -44,8 +44,19 @@ func ruleMapIterCond(c *Ctx, r *R) {
 	}
 	// dispatcher: Wait inside a loop guarded by inFlight >= bufferSize
 	var bufCell *ssa.Alloc
+	boundIsField := false
 	nWait := 0
+	var waitFns []*ssa.Function
+	seenW := map[*ssa.Function]bool{}
 	for _, g := range withAnon(mi) {
+		for _, fr := range deepFrames(g, 2) {
+			if !seenW[fr.f] {
+				seenW[fr.f] = true
+				waitFns = append(waitFns, fr.f)
+			}
+		}
+	}
+	for _, g := range waitFns {
 		instrs(g, func(b *ssa.BasicBlock, i int, in ssa.Instruction) {
 			call, ok := in.(*ssa.Call)
 			if !ok {
@@ -64,6 +75,9 @@ func ruleMapIterCond(c *Ctx, r *R) {
 					if reaches(b, gd.blk) {
 						okGuard = true
 						bufCell = loadCell(cf.y)
+						if strings.HasSuffix(path(cf.y), ".bufferSize") {
+							boundIsField = true // compares with the struct's own bound: the same value by construction
+						}
 						if cf.op == token.GTR {
 							okGuard = false
 						}
@@ -85,17 +99,32 @@ func ruleMapIterCond(c *Ctx, r *R) {
 			}
 		}
 	})
+	if boundIsField {
+		// the field must be initialised from the (clamped) bufferSize parameter
+		instrs(mi, func(b *ssa.BasicBlock, i int, in ssa.Instruction) {
+			if st, ok := in.(*ssa.Store); ok {
+				if _, f, ok := storedField(st.Addr); ok && f == "bufferSize" {
+					for _, lf := range valueLeaves(st.Val, nil, 0) {
+						if p, ok := lf.v.(*ssa.Parameter); ok && p.Parent() == mi && isIntType(p.Type()) {
+							okField = true
+						}
+					}
+				}
+			}
+		})
+	}
 	r.ok(okField, "parallel.MapIterator|same-bound", mi.Pos(), "mapIterator.bufferSize must be initialised from the same variable the dispatcher compares inFlight with")
 	// consumer: Signal condition
 	nSig := 0
-	instrs(nx, func(b *ssa.BasicBlock, i int, in ssa.Instruction) {
-		call, ok := in.(*ssa.Call)
+	for _, dd := range deepInstrs(nx, 2) {
+		b := dd.in.Block()
+		call, ok := dd.in.(*ssa.Call)
 		if !ok {
-			return
+			continue
 		}
 		cal := call.Call.StaticCallee()
 		if cal == nil || (cal.Name() != "Signal" && cal.Name() != "Broadcast") || cal.Signature.Recv() == nil || !isNamedType(cal.Signature.Recv().Type(), "sync", "Cond") {
-			return
+			continue
 		}
 		nSig++
 		covers := true
@@ -124,7 +153,7 @@ func ruleMapIterCond(c *Ctx, r *R) {
 			}
 		}
 		r.ok(covers, "parallel.mapIterator.Next|signal-covers-flip", call.Pos(), why)
-	})
+	}
 	if nSig == 0 {
 		r.violated("parallel.mapIterator.Next|signal-covers-flip", nx.Pos(), "the consumer never signals the dispatcher")
 	}
@@ -132,7 +161,8 @@ func ruleMapIterCond(c *Ctx, r *R) {
 
 // countPF: counts events saturating at 2 (states 0,1,2).
 func countExits(fn *ssa.Function, isEvent func(in ssa.Instruction) bool, reset func(in ssa.Instruction) (bool, func(count StateSet))) []pfExit {
-	pf := &PF{N: 3}
+	pkg := rootFn(fn).Pkg
+	pf := &PF{N: 3, InScope: func(f *ssa.Function) bool { return rootFn(f).Pkg == pkg && f.Blocks != nil && f != fn && f.Parent() == nil }}
 	pf.Instr = func(f *ssa.Function, in ssa.Instruction, q int) (StateSet, bool) {
 		if isEvent(in) {
 			if q < 2 {
@@ -384,30 +414,35 @@ func ruleMapOrder(c *Ctx, r *R) {
 		}
 		// Pop only under Peek().idx == s.i
 		nPop := 0
-		instrs(fn, func(b *ssa.BasicBlock, i int, in ssa.Instruction) {
-			call, ok := in.(*ssa.Call)
+		for _, dd := range deepInstrs(fn, 2) {
+			call, ok := dd.in.(*ssa.Call)
 			if !ok {
-				return
+				continue
 			}
 			cal := staticCallee(&call.Call)
-			if cal == nil || cal.Name() != "Pop" {
-				return
+			if cal == nil || cal.Name() != "Pop" || cal.Signature.Recv() == nil || !(isNamedTypeDeep(cal.Signature.Recv().Type(), "internal/heap", "Heap") || isNamedTypeDeep(cal.Signature.Recv().Type(), "container/xheap", "Heap")) {
+				continue
 			}
 			nPop++
 			guarded, nonEmpty := false, false
-			for _, gd := range guardsOf(b) {
-				if cf, ok := gd.asCmp(); ok {
-					xs, ys := path(cf.x), path(cf.y)
-					if cf.op == token.EQL && strings.Contains(xs, "Peek") && strings.HasSuffix(xs, ".idx") && strings.HasSuffix(ys, ".i") {
-						guarded = true
-					}
-					if strings.Contains(xs, "Len") && ((cf.op == token.GTR && isConstInt(cf.y, 0)) || (cf.op == token.NEQ && isConstInt(cf.y, 0)) || (cf.op == token.GEQ && isConstInt(cf.y, 1))) {
-						nonEmpty = true
-					}
+			for _, fs := range deepFactStrings(dd) {
+				parts := strings.SplitN(fs, " ", 3)
+				if len(parts) != 3 {
+					continue
+				}
+				xs, op, ys := parts[0], parts[1], parts[2]
+				if op == "==" && strings.Contains(xs, "Peek") && strings.HasSuffix(xs, ".idx") && strings.HasSuffix(ys, ".i") {
+					guarded = true
+				}
+				if op == "==" && strings.Contains(ys, "Peek") && strings.HasSuffix(ys, ".idx") && strings.HasSuffix(xs, ".i") {
+					guarded = true
+				}
+				if strings.Contains(xs, "Len") && ((op == ">" && strings.HasPrefix(ys, "0:")) || (op == "!=" && strings.HasPrefix(ys, "0:")) || (op == ">=" && strings.HasPrefix(ys, "1:"))) {
+					nonEmpty = true
 				}
 			}
 			r.ok(guarded && nonEmpty, name+"|pop-guard", call.Pos(), "a result may be popped (yielded) only when the heap is non-empty and its minimum carries exactly the next expected index")
-		})
+		}
 		if nPop == 0 {
 			r.violated(name+"|pop-guard", fn.Pos(), "no Pop of the reorder heap found")
 		}
@@ -584,41 +619,61 @@ func ruleMapStreamError(c *Ctx, r *R) {
 		return
 	}
 	var wait *ssa.Call
-	instrs(fn, func(b *ssa.BasicBlock, i int, in ssa.Instruction) {
-		if call, ok := in.(*ssa.Call); ok {
-			if cal := call.Call.StaticCallee(); cal != nil && cal.Name() == "Wait" {
+	var waitAt deepInstr
+	for _, dd := range deepInstrs(fn, 2) {
+		if call, ok := dd.in.(*ssa.Call); ok {
+			if cal := call.Call.StaticCallee(); cal != nil && cal.Name() == "Wait" && cal.Pkg != nil && strings.HasSuffix(cal.Pkg.Pkg.Path(), "errgroup") {
 				wait = call
+				waitAt = dd
 			}
 		}
-	})
+	}
 	if wait == nil {
 		r.violated("parallel.mapStream.Next|wait", fn.Pos(), "Next never collects the group's error")
 		return
 	}
-	// Wait only after c was seen closed
+	// Wait only after c was seen closed (the !ok edge of the receive, in Next or at the call site of the helper that waits)
 	closedSeen := false
-	for _, gd := range guardsOf(wait.Block()) {
-		if v, val := gd.boolVal(); !val {
-			if ex, ok := v.(*ssa.Extract); ok && ex.Index == 1 {
-				closedSeen = true
+	blocks := []*ssa.BasicBlock{wait.Block()}
+	for _, cc := range waitAt.calls {
+		blocks = append(blocks, cc.Block())
+	}
+	for _, wb := range blocks {
+		for _, gd := range guardsOf(wb) {
+			if v, val := gd.boolVal(); !val {
+				if ex, ok := v.(*ssa.Extract); ok && ex.Index == 1 {
+					closedSeen = true
+				}
 			}
 		}
 	}
 	r.ok(closedSeen, "parallel.mapStream.Next|wait-after-close", wait.Pos(), "eg.Wait() must be consulted only after the output channel was observed closed (all results delivered first)")
 	retErr, retEnd := false, false
-	instrs(fn, func(b *ssa.BasicBlock, i int, in ssa.Instruction) {
+	wf := wait.Parent()
+	handsOn := wf == fn
+	if wf != fn {
+		// Next must return the helper's result as its error
+		instrs(fn, func(b *ssa.BasicBlock, i int, in ssa.Instruction) {
+			if ret, ok := in.(*ssa.Return); ok && len(ret.Results) == 2 {
+				if call, ok := ret.Results[1].(*ssa.Call); ok && staticCallee(&call.Call) == wf {
+					handsOn = true
+				}
+			}
+		})
+	}
+	instrs(wf, func(b *ssa.BasicBlock, i int, in ssa.Instruction) {
 		ret, ok := in.(*ssa.Return)
-		if !ok || !wait.Block().Dominates(b) {
+		if !ok || !wait.Block().Dominates(b) || !handsOn {
 			return
 		}
-		if ret.Results[1] == ssa.Value(wait) {
+		if ret.Results[len(ret.Results)-1] == ssa.Value(wait) {
 			for _, gd := range guardsOf(b) {
 				if cf, ok := gd.asCmp(); ok && cf.x == ssa.Value(wait) && cf.op == token.NEQ && isNilConst(cf.y) {
 					retErr = true
 				}
 			}
 		}
-		if strings.HasSuffix(path(ret.Results[1]), "End") {
+		if strings.HasSuffix(path(ret.Results[len(ret.Results)-1]), "End") {
 			for _, gd := range guardsOf(b) {
 				if cf, ok := gd.asCmp(); ok && cf.x == ssa.Value(wait) && cf.op == token.EQL && isNilConst(cf.y) {
 					retEnd = true
